@@ -204,6 +204,16 @@ impl Scenario for GradStreams {
     fn generate(&self, g: &mut Gen, _t: Tier, _i: u64) -> Value {
         // 2..64 chains (a third of the runs above 32)
         let nc = if g.bool(1, 3) { g.usize(33, 64) } else { g.usize(2, 32) };
+        if g.bool(1, 5) {
+            // an HMC batch over a state of arbitrary dimension: 1..40, or at a size threshold named in the
+            // sources (source-literal dictionary, t-1 / t / t+1, up to 5000), few chains
+            let dim = match crate::core::dict_size(g, 1, 5000) {
+                Some(d) if g.bool(2, 3) => d,
+                _ => g.usize(1, 40),
+            };
+            let nc = g.usize(2, 5);
+            return json!({"kind": *g.pick(&["hmc_nd_f32", "hmc_nd_f64"]), "dim": dim, "n_chains": nc, "seeded": g.bool(2, 3), "seed": crate::props::c07::special_seed(g, nc).to_string()});
+        }
         json!({"kind": *g.pick(&["hmc_f32", "hmc_f64", "nuts_f32", "nuts_f64"]), "n_chains": nc, "seeded": g.bool(2, 3), "seed": crate::props::c07::special_seed(g, nc).to_string()})
     }
     fn execute(&self, p: &Value, ws: bool) -> Outcome {
@@ -219,8 +229,40 @@ impl Scenario for GradStreams {
         // rows of momenta actually used by the first transition(s), from the draw trace
         let mut mom_rows: Vec<Vec<u64>> = vec![];
         let mut traj: Vec<Vec<u64>> = vec![];
+        let dim = p.get("dim").and_then(|v| v.as_u64()).unwrap_or(2) as usize;
         mcmc_sim::trace::start();
         match kind {
+            "hmc_nd_f32" | "hmc_nd_f64" => {
+                use crate::gtargets::{GKind, GTarget};
+                let t = GTarget::new(GKind::Quartic, dim);
+                let out = if kind == "hmc_nd_f32" {
+                    let mut h = HMC::<f32, BF32, GTarget>::new(t, vec![vec![0.5f32; dim]; nc], 0.05, 2);
+                    if seeded {
+                        h = h.set_seed(seed);
+                    }
+                    crate::zoo::tensor_bits(&h.run(2, 0))
+                } else {
+                    let mut h = HMC::<f64, BF64, GTarget>::new(t, vec![vec![0.5f64; dim]; nc], 0.05, 2);
+                    if seeded {
+                        h = h.set_seed(seed);
+                    }
+                    crate::zoo::tensor_bits(&h.run(2, 0))
+                };
+                let ev = mcmc_sim::trace::stop();
+                if let Some(m) = ev.iter().find(|e| e.role == "hmc_momentum") {
+                    mom_rows = m.vals.chunks(dim).map(|r| r.iter().map(|v| v.to_bits()).collect()).collect();
+                }
+                let (bits, shape) = out;
+                traj = (0..shape[0]).map(|c| bits[c * shape[1] * shape[2]..(c + 1) * shape[1] * shape[2]].to_vec()).collect();
+                if let Some(u) = ev.iter().find(|e| e.role == "hmc_u") {
+                    let us: Vec<u64> = u.vals.iter().map(|v| v.to_bits()).collect();
+                    if let Some((i, j)) = first_pair_equal(&us) {
+                        o.violate("same_acceptance_stream", &format!("HMC[{how}]:chains-share-acceptance-draw"), format!("chains {i} and {j} received the same acceptance draw (dim {dim})"));
+                    }
+                }
+                o.count("probe_hmc_dim_ge_1024", (dim >= 1024) as u64);
+                o.count("probe_hmc_dim_ge_64", (dim >= 64) as u64);
+            }
             "hmc_f32" | "hmc_f64" => {
                 let out = if kind == "hmc_f32" {
                     let t = DiffableGaussian2D::new([0.0f32, 1.0], [[4.0, 2.0], [2.0, 3.0]]);
@@ -283,11 +325,11 @@ impl Scenario for GradStreams {
         }
         let fam = if kind.starts_with("hmc") { "HMC" } else { "NUTS" };
         if let Some((i, j)) = first_pair_equal(&mom_rows) {
-            o.violate("same_momentum", &format!("{fam}[{how}]:chains-share-momentum"), format!("{nc} chains ({how}): two chains ({i}, {j}) received identical momenta"));
+            o.violate("same_momentum", &format!("{fam}[{how}]:chains-share-momentum"), format!("{nc} chains ({how}): two chains ({i}, {j}) received identical momenta (dim {dim})"));
         }
         if let Some((i, j)) = first_pair_equal(&traj) {
-            let start: Vec<u64> = vec![0.5f64.to_bits(), 0.5f64.to_bits()];
-            if traj[i].chunks(2).any(|r| r != start.as_slice()) {
+            let start: Vec<u64> = vec![0.5f64.to_bits(); dim];
+            if traj[i].chunks(dim).any(|r| r != start.as_slice()) {
                 o.violate("same_trajectory", &format!("{fam}[{how}]:identical-trajectories"), format!("chains {i} and {j} started at one state follow bit-identical trajectories"));
             }
         }
